@@ -60,6 +60,13 @@ func actValues(k *fw.K, class int, shape []int, softmaxDim int) (*ref.T, string)
 		}
 		return t, "large"
 	}
+	if class == 5 { // SUBNORMAL inputs (and results): 3e-310, -1e-307 * slope ...
+		t := Shuffled(r, Unique(r, shape, 1, 9))
+		for i := range t.Data {
+			t.Data[i] *= []float64{1e-310, 1e-307, 5e-324, 1e-315}[r.Intn(4)]
+		}
+		return t, "subnormal"
+	}
 	if class == 4 { // finite values at the top of the range, several of one sign (their SUM overflows, no single one does)
 		t := ref.Zeros(shape)
 		for i := range t.Data {
@@ -82,9 +89,9 @@ func actValues(k *fw.K, class int, shape []int, softmaxDim int) (*ref.T, string)
 // the negative elements of the "huge" class overflow to -Inf in the defining formula itself; the positive ones must still be x.
 func actClasses(sp actSpec) []int {
 	if sp.in.Op == "softmax" {
-		return []int{0, 1, 2, 3}
+		return []int{0, 1, 2, 3, 5}
 	}
-	return []int{0, 1, 2, 3, 4}
+	return []int{0, 1, 2, 3, 4, 5}
 }
 
 type actSpec struct {
@@ -229,9 +236,15 @@ func runC14(c *fw.Ctx) {
 							k.Failf("%s.Forward(ins...) on shape %v overwrote the caller's argument slice", sp.name, shape)
 							return
 						}
-						if e := rt.Compare(y, want, 1e-300, 1e-12, nil, 0); e != nil {
-							k.Failf("%s on shape %v [%s]: %v", sp.name, shape, cname, e)
-							return
+						atol := 1e-300
+						if cname == "subnormal" {
+							atol = 0 // results down to 5e-324 are decided: one part in 1e12, or the neighbouring subnormal
+						}
+						if e := rt.Compare(y, want, atol, 1e-12, nil, 0); e != nil {
+							if cname != "subnormal" || subnormalMismatch(y, want) {
+								k.Failf("%s on shape %v [%s]: %v", sp.name, shape, cname, e)
+								return
+							}
 						}
 						if sp.in.Op == "softmax" {
 							got, _ := rt.Read(y)
@@ -255,6 +268,22 @@ func runC14(c *fw.Ctx) {
 			}
 		}
 	}
+}
+
+// subnormalMismatch: true unless every element equals the expected one up to one part in 1e12 or one unit in the last place of
+// the subnormal grid (4.9e-324), the precision such tiny results have.
+func subnormalMismatch(y tensor.Tensor, want *ref.T) bool {
+	got, err := rt.Read(y)
+	if err != nil || !ref.SameShape(got.Shape, want.Shape) {
+		return true
+	}
+	for i := range want.Data {
+		d := math.Abs(got.Data[i] - want.Data[i])
+		if d > 1e-12*math.Abs(want.Data[i]) && d > 1e-323 {
+			return true
+		}
+	}
+	return false
 }
 
 // actPoison feeds the activation object a batch of the given shape holding +-Inf and NaN; whatever it
